@@ -153,7 +153,7 @@ def run_hexcase(run, P, units=('coap_uri.c',)):
                 run.oblige('R-URI-CLASS', False, '%s:hexcase:%s' % (f['name'], chr(K)))
                 run.violation('R-URI-CLASS', f['name'], locs[(xs, K)], 'hex-letter-one-case-only:%s' % chr(K),
                               "%s is compared with '%s' but never with '%s' in this function" % (xs[:40], chr(K), chr(K - 32)), [])
-    run.require(n >= 1 or run.fixture_mode, 'R-URI-CLASS(hex case): no comparison with a hex letter found in %s' % (units,))
+    run.require_count(n >= 1 or run.fixture_mode, 'R-URI-CLASS(hex case): no comparison with a hex letter found in %s' % (units,))
 
 
 def run_dot_root(run, P, units=('coap_uri.c',)):
@@ -235,7 +235,7 @@ def run_dot_root(run, P, units=('coap_uri.c',)):
                               '%s() resolves ".." by letting %s() delete the last element from position %s on, and %s is defined by `%s`, which is not "the chain parameter, '
                               'advanced while *%s": a ".." at the root of the path deletes an option that was in the chain before (Uri-Port after Uri-Host)'
                               % (f['name'], fn, vn, vn, short(bad['e'])[:60] if bad else 'nothing', vn), [])
-    run.require(n >= 1 or run.fixture_mode or run.cfg != 'base', 'R-URI-CLASS(dot-dot): no call of a list-trimming helper with a local position found (expected coap_path_into_optlist -> backup_optlist)')
+    run.require_count(n >= 1 or run.fixture_mode or run.cfg != 'base', 'R-URI-CLASS(dot-dot): no call of a list-trimming helper with a local position found (expected coap_path_into_optlist -> backup_optlist)')
 
 
 def run_default_ports(run, P, table='coap_uri_scheme', fname='coap_uri_into_optlist'):
@@ -307,4 +307,4 @@ def run_default_ports(run, P, table='coap_uri_scheme', fname='coap_uri_into_optl
         return env
     solve(f, Env(), lambda ev, env, ctx: None, None, keys, R, key_fn=lambda e: tuple(e.intf(a) for a in sorted(scheme_aps)), on_branch=on_branch)
     run.instance('R-URI-CLASS', '%s: every scheme is compared with its own default port of %s[] (%d scheme/test pairs)' % (fname, table, n[0]))
-    run.require(n[0] >= len(rows) or run.fixture_mode, 'R-URI-CLASS(default ports): fewer scheme/test pairs (%d) than schemes (%d) were judged' % (n[0], len(rows)))
+    run.require_count(n[0] >= len(rows) or run.fixture_mode, 'R-URI-CLASS(default ports): fewer scheme/test pairs (%d) than schemes (%d) were judged' % (n[0], len(rows)))
